@@ -709,15 +709,13 @@ def decisions : St → List HOp → List (Nat × String)
   | _, [] => []
   | s, op :: ops => ((op.run s).2.toList) ++ decisions (op.run s).1 ops
 
-/-- the side conditions, along the run with the reloads: the flow controllers of `D` read only nodes of `D`; every reload
-    lists, for each resource of `D` it touches, rules `isEqualsTo` the bound ones in order (this excludes the regions of
+/-- the side conditions, along the run with the reloads: every reload lists, for each resource of `D` it touches, rules `isEqualsTo` the bound ones in order (this excludes the regions of
     `reuse-steals-controller` — nothing is rebuilt, so nothing can be stolen — and of `warmup-reload-resets` — a rule
     with a defaulted cold factor is not `isEqualsTo` its normalised bound rule); a flow reload needs no new node in `D`
     (true of every reachable state: the unchanged rule already made sure of its node when it was first loaded). -/
 def Unchanged (D : List Nat) : St → List HOp → Prop
   | _, [] => True
   | s, op :: ops =>
-    Closed D s ∧
     (match op with
       | .traffic _ => True
       | .reload modl _ only arg =>
@@ -752,43 +750,53 @@ theorem traffic_step (D : List Nat) (a b : St) (o : TOp) (h : Agree D a b) (hc :
         rw [ha2, hb2, checksOf_agree h hc y hy q]
       · simp [List.filter_cons, hy]
 
-theorem decisions_sim (D : List Nat) (ops : List HOp) (a b : St) (h : Agree D a b) (hu : Unchanged D a ops) :
+theorem closed_traffic (D : List Nat) (s : St) (o : TOp) (h : Closed D s) : Closed D (o.run s).1 := by
+  cases o with
+  | clock t => exact h
+  | mem m => exact h
+  | e y err q rt => exact closed_entry D s y err q rt h
+
+theorem decisions_sim (D : List Nat) (ops : List HOp) (a b : St) (h : Agree D a b) (hc : Closed D a)
+    (hu : Unchanged D a ops) :
     (decisions a ops).filter (·.1 ∈ D) = (decisions b (ops.filter HOp.isTraffic)).filter (·.1 ∈ D) := by
   induction ops generalizing a b with
   | nil => rfl
   | cons op ops ih =>
-    obtain ⟨hc, hop, hrest⟩ := hu
+    obtain ⟨hop, hrest⟩ := hu
     cases op with
     | traffic o =>
       obtain ⟨hag, hdec⟩ := traffic_step D a b o h hc
       simp only [List.filter_cons, HOp.isTraffic, if_true, decisions, HOp.run, List.filter_append]
       rw [hdec]
       congr 1
-      exact ih _ _ hag hrest
+      exact ih _ _ hag (closed_traffic D a o hc) hrest
     | reload modl re only arg =>
       simp only [List.filter_cons, HOp.isTraffic, decisions, HOp.run, Option.toList, List.nil_append]
-      refine ih _ _ ?_ hrest
-      refine Agree.trans' ?_ h
-      rcases hop with ⟨rfl, hh⟩ | ⟨rfl, hh⟩ | ⟨rfl, hh⟩
-      · exact doLoad_cb_agree D a re only arg hh
-      · exact doLoad_hot_agree D a re only arg hh
-      · exact doLoad_flow_agree D a re only arg (fun r hr => (hh r hr).1) (fun r hr => (hh r hr).2)
+      have hself : Agree D (doLoad false a modl re only arg).1 a := by
+        rcases hop with ⟨rfl, hh⟩ | ⟨rfl, hh⟩ | ⟨rfl, hh⟩
+        · exact doLoad_cb_agree D a re only arg hh
+        · exact doLoad_hot_agree D a re only arg hh
+        · exact doLoad_flow_agree D a re only arg (fun r hr => (hh r hr).1) (fun r hr => (hh r hr).2)
+      exact ih _ _ (Agree.trans' hself h) (closed_of_agree hself hc) hrest
 
 /-- **C14 at decision level, for the model the driver executes.**  From any driver state `s` (whatever history `h`
     produced it): for every continuation of traffic (`t`, `mem`, `e` on any resources) with reloads of any module inserted
-    anywhere, through either load path, saying anything about resources outside `D`: if every reload leaves the rules
+    anywhere, through either load path, saying anything about resources outside `D`: if the flow controllers of `D` read
+    only nodes of `D` at the start (`Closed`; traffic and unchanged reloads keep it so) and every reload leaves the rules
     of the resources in `D` unchanged (`Unchanged`), every decision on a resource of `D` — in particular on `x` — is the
     one the same traffic gets without the reloads. -/
-theorem decisions_unaffected_by_reload_partial (D : List Nat) (s : St) (ops : List HOp) (hu : Unchanged D s ops) :
+theorem decisions_unaffected_by_reload_partial (D : List Nat) (s : St) (ops : List HOp) (hc : Closed D s)
+    (hu : Unchanged D s ops) :
     (decisions s ops).filter (·.1 ∈ D) = (decisions s (ops.filter HOp.isTraffic)).filter (·.1 ∈ D) :=
-  decisions_sim D ops s s ⟨rfl, rfl, fun _ _ => rfl⟩ hu
+  decisions_sim D ops s s ⟨rfl, rfl, fun _ _ => rfl⟩ hc hu
 
 /-- the form asked for: one reload `r` between a history's state and a tail `t` of traffic -/
 theorem decisions_same_with_and_without_one_reload (D : List Nat) (s : St) (modl : String) (re : Bool) (only : Option Nat)
-    (arg : String) (t : List TOp) (hu : Unchanged D s (HOp.reload modl re only arg :: t.map HOp.traffic)) :
+    (arg : String) (t : List TOp) (hc : Closed D s)
+    (hu : Unchanged D s (HOp.reload modl re only arg :: t.map HOp.traffic)) :
     (decisions s (HOp.reload modl re only arg :: t.map HOp.traffic)).filter (·.1 ∈ D)
       = (decisions s (t.map HOp.traffic)).filter (·.1 ∈ D) := by
-  have := decisions_unaffected_by_reload_partial D s _ hu
+  have := decisions_unaffected_by_reload_partial D s _ hc hu
   rw [this]
   congr 2
   simp only [List.filter_cons, HOp.isTraffic, Bool.false_eq_true, if_false]
